@@ -29,10 +29,12 @@ const DUP_TOML: u32 = 60;
 const DUP_MOD: u32 = 61;
 const DUP_TEXT: &str = "pub fn a(x) { \"dup\" }\npub fn c() { \"dup\" }\npub fn pong(n) { \"dup\" }\npub type A { A(a: String) C }\n";
 
-fn graph(dep: bool, dup: bool) -> PackageGraph {
+/// `ext`: the package `lib` is a downloaded dependency (not local).  Independently of it, the last library module lives
+/// under lib's `test/` directory (a module like any other to glas, wherever its package comes from).
+fn graph(dep: bool, dup: bool, ext: bool) -> PackageGraph {
     let mut g = PackageGraph::default();
     let app = g.add_package("app".into(), FileId(0), true);
-    let lib = g.add_package("lib".into(), FileId(1), true);
+    let lib = g.add_package("lib".into(), FileId(1), !ext);
     if dep {
         g.add_dep(app, ide::Dependency { package: lib });
     }
@@ -43,7 +45,7 @@ fn graph(dep: bool, dup: bool) -> PackageGraph {
     g
 }
 
-fn structural(files: &Files, filler: usize, change: &mut Change, with_graph: Option<bool>, dup: bool, one: bool) {
+fn structural(files: &Files, filler: usize, change: &mut Change, with_graph: Option<bool>, dup: bool, one: bool, ext: bool) {
     let mut app = FileSet::default();
     let mut lib = FileSet::default();
     app.insert(FileId(0), VfsPath::new("/app/gleam.toml"));
@@ -52,6 +54,8 @@ fn structural(files: &Files, filler: usize, change: &mut Change, with_graph: Opt
         if i == 0 || one {
             // (`one`: every module belongs to the package `app` - modules of one package may import each other in a cycle)
             app.insert(FileId(MOD0 + i as u32), VfsPath::new(format!("/app/src/{n}.gleam")));
+        } else if i + 1 == files.len() {
+            lib.insert(FileId(MOD0 + i as u32), VfsPath::new(format!("/lib/test/{n}.gleam")));
         } else {
             lib.insert(FileId(MOD0 + i as u32), VfsPath::new(format!("/lib/src/{n}.gleam")));
         }
@@ -68,11 +72,11 @@ fn structural(files: &Files, filler: usize, change: &mut Change, with_graph: Opt
     }
     change.set_roots(roots);
     if let Some(dep) = with_graph {
-        change.set_package_graph(graph(dep, dup && files.len() >= 2));
+        change.set_package_graph(graph(dep, dup && files.len() >= 2, ext));
     }
 }
 
-fn fresh(files: &Files, filler: usize, dep: bool, dup: bool, one: bool) -> AnalysisHost {
+fn fresh(files: &Files, filler: usize, dep: bool, dup: bool, one: bool, ext: bool) -> AnalysisHost {
     let mut host = AnalysisHost::new();
     let mut c = Change::default();
     c.change_file(FileId(0), "".into());
@@ -87,7 +91,7 @@ fn fresh(files: &Files, filler: usize, dep: bool, dup: bool, one: bool) -> Analy
         c.change_file(FileId(DUP_TOML), "".into());
         c.change_file(FileId(DUP_MOD), DUP_TEXT.into());
     }
-    structural(files, filler, &mut c, Some(dep), dup, one);
+    structural(files, filler, &mut c, Some(dep), dup, one, ext);
     host.apply_change(c);
     host
 }
@@ -96,7 +100,7 @@ fn fresh(files: &Files, filler: usize, dep: bool, dup: bool, one: bool) -> Analy
 /// `graph_first` - the package graph arrives with the roots of the first package only (the dependency is not on disk yet),
 ///   the dependency's root and files follow without the graph being sent again;
 /// otherwise - roots and files first, the package graph alone afterwards.
-fn staged(files: &Files, filler: usize, dep: bool, dup: bool, one: bool, graph_first: bool) -> AnalysisHost {
+fn staged(files: &Files, filler: usize, dep: bool, dup: bool, one: bool, ext: bool, graph_first: bool) -> AnalysisHost {
     let mut host = AnalysisHost::new();
     if graph_first {
         let mut c = Change::default();
@@ -111,7 +115,7 @@ fn staged(files: &Files, filler: usize, dep: bool, dup: bool, one: bool, graph_f
             app.insert(FileId(MOD0), VfsPath::new(format!("/app/src/{n}.gleam")));
         }
         c.set_roots(vec![SourceRoot::new(app, "/app".into())]);
-        c.set_package_graph(graph(dep, false));
+        c.set_package_graph(graph(dep, false, ext));
         host.apply_change(c);
         // something is asked in this state (what it memoises must be invalidated by the roots that follow)
         let _ = catch(|| host.snapshot().diagnostics(FileId(MOD0)));
@@ -129,7 +133,7 @@ fn staged(files: &Files, filler: usize, dep: bool, dup: bool, one: bool, graph_f
             c.change_file(FileId(DUP_MOD), DUP_TEXT.into());
         }
         // roots only - unless the second dependency appears too (its graph node does not exist yet)
-        structural(files, filler, &mut c, if dup { Some(dep) } else { None }, dup, one);
+        structural(files, filler, &mut c, if dup { Some(dep) } else { None }, dup, one, ext);
         host.apply_change(c);
     } else {
         let mut c = Change::default();
@@ -145,13 +149,13 @@ fn staged(files: &Files, filler: usize, dep: bool, dup: bool, one: bool, graph_f
             c.change_file(FileId(DUP_TOML), "".into());
             c.change_file(FileId(DUP_MOD), DUP_TEXT.into());
         }
-        structural(files, filler, &mut c, None, dup, one);
+        structural(files, filler, &mut c, None, dup, one, ext);
         host.apply_change(c);
         // something is asked before the graph is there (memoised results that the graph must invalidate)
         let _ = catch(|| host.snapshot().diagnostics(FileId(MOD0)));
         let _ = catch(|| { let a = host.snapshot(); queries::file_query(&a, FILE_QUERIES[FILE_QUERIES.len() - 1], FileId(MOD0), files.first().map_or(0, |f| f.1.len())) });
         let mut c = Change::default();
-        c.set_package_graph(graph(dep, dup && files.len() >= 2));
+        c.set_package_graph(graph(dep, dup && files.len() >= 2, ext));
         host.apply_change(c);
     }
     host
@@ -280,18 +284,19 @@ fn main() {
                 let mut dep = hist[0]["dep"].as_bool().unwrap_or(true);
                 let mut dup = hist[0]["dup"].as_bool().unwrap_or(false);
                 let mut one = hist[0]["one"].as_bool().unwrap_or(false);
-                let mut host = fresh(&files, filler, dep, dup, one);
+                let mut ext = hist[0]["ext"].as_bool().unwrap_or(false);
+                let mut host = fresh(&files, filler, dep, dup, one, ext);
                 // the long-lived analysis has answered everything about the initial workspace before the first change
                 // (memoised results exist that the change must invalidate)
                 let warm = answers(&host, &files, false, filler);
                 // `check_seed`: the initial workspace itself is compared too (answers must not depend on the order of
                 // the queries or on the instance: fresh, fresh asked in reverse order, and the warm one)
                 if case["check_seed"].as_bool().unwrap_or(false) {
-                    let f1 = answers(&fresh(&files, filler, dep, dup, one), &files, false, filler);
-                    let f2 = answers(&fresh(&files, filler, dep, dup, one), &files, true, filler);
+                    let f1 = answers(&fresh(&files, filler, dep, dup, one, ext), &files, false, filler);
+                    let f2 = answers(&fresh(&files, filler, dep, dup, one, ext), &files, true, filler);
                     // the same workspace delivered in stages (graph first / roots first) must answer like the one delivered at once
                     for graph_first in [true, false] {
-                        let st = answers(&staged(&files, filler, dep, dup, one, graph_first), &files, false, filler);
+                        let st = answers(&staged(&files, filler, dep, dup, one, ext, graph_first), &files, false, filler);
                         compared += st.len() as u64;
                         if let Some(((k, a), (_, b))) = st.iter().zip(f1.iter()).find(|((_, a), (_, b))| a != b) {
                             local.push(json!({"kind": "mismatch", "prop": "C11", "features": {"what": "workspace delivered in stages differs from fresh", "query": k.split('/').nth(1), "op": "seed",
@@ -339,6 +344,7 @@ fn main() {
                     let new_dep = st["dep"].as_bool().unwrap_or(dep);
                     let new_dup = st["dup"].as_bool().unwrap_or(dup);
                     let new_one = st["one"].as_bool().unwrap_or(one);
+                    let new_ext = st["ext"].as_bool().unwrap_or(ext);
                     // the change, built the way the server builds it: changed files only; roots when a file appears;
                     // the package graph alone when only a dependency edge changed
                     let mut c = std::mem::take(&mut pending);
@@ -347,8 +353,8 @@ fn main() {
                             c.change_file(FileId(MOD0 + i as u32), t.as_str().into());
                         }
                     }
-                    if new_dep != dep && new_dup == dup {
-                        c.set_package_graph(graph(new_dep, dup && new_files.len() >= 2));
+                    if (new_dep != dep || new_ext != ext) && new_dup == dup {
+                        c.set_package_graph(graph(new_dep, dup && new_files.len() >= 2, new_ext));
                     }
                     let renamed = new_files.iter().zip(files.iter()).any(|((n, _), (o, _))| n != o);
                     if new_one != one {
@@ -357,18 +363,18 @@ fn main() {
                             c.change_file(FileId(DUP_TOML), "".into());
                             c.change_file(FileId(DUP_MOD), DUP_TEXT.into());
                         }
-                        structural(&new_files, filler, &mut c, Some(new_dep), new_dup, new_one);
+                        structural(&new_files, filler, &mut c, Some(new_dep), new_dup, new_one, new_ext);
                     } else if new_dup != dup {
                         // the second dependency appears / disappears: its files, the roots and the graph in one change
                         if new_dup {
                             c.change_file(FileId(DUP_TOML), "".into());
                             c.change_file(FileId(DUP_MOD), DUP_TEXT.into());
                         }
-                        structural(&new_files, filler, &mut c, Some(new_dep), new_dup, one);
+                        structural(&new_files, filler, &mut c, Some(new_dep), new_dup, one, new_ext);
                     } else if new_files.len() != files.len() || renamed {
-                        structural(&new_files, filler, &mut c, if rng.chance(1, 2) || dup { Some(new_dep) } else { None }, dup, one);
-                    } else if new_dep == dep && rng.chance(1, 6) {
-                        structural(&new_files, filler, &mut c, if rng.chance(1, 2) { Some(new_dep) } else { None }, dup, one);   // roots / graph replaced by equal ones
+                        structural(&new_files, filler, &mut c, if rng.chance(1, 2) || dup { Some(new_dep) } else { None }, dup, one, new_ext);
+                    } else if new_dep == dep && new_ext == ext && rng.chance(1, 6) {
+                        structural(&new_files, filler, &mut c, if rng.chance(1, 2) { Some(new_dep) } else { None }, dup, one, new_ext);   // roots / graph replaced by equal ones
                     }
                     // batched with the next edit: the analysis gets both in one change (several contents for one file)
                     if st["batched"].as_bool().unwrap_or(false) && si + 1 < hist.len() && hist[si + 1]["op"]["k"] != "query" {
@@ -377,6 +383,7 @@ fn main() {
                         dep = new_dep;
                         dup = new_dup;
                         one = new_one;
+                        ext = new_ext;
                         batched += 1;
                         continue;
                     }
@@ -385,10 +392,11 @@ fn main() {
                     dep = new_dep;
                     dup = new_dup;
                     one = new_one;
+                    ext = new_ext;
                     steps += 1;
                     let long = answers(&host, &files, false, filler);
-                    let f1 = answers(&fresh(&files, filler, dep, dup, one), &files, false, filler);
-                    let f2 = answers(&fresh(&files, filler, dep, dup, one), &files, true, filler);
+                    let f1 = answers(&fresh(&files, filler, dep, dup, one, ext), &files, false, filler);
+                    let f2 = answers(&fresh(&files, filler, dep, dup, one, ext), &files, true, filler);
                     compared += long.len() as u64;
                     for (((k, a), (_, b)), (_, c2)) in long.iter().zip(f1.iter()).zip(f2.iter()) {
                         if a != b || b != c2 {
